@@ -36,7 +36,9 @@ class Indenter(PostLex, ABC):
 
         yield token
 
-        indent_str = token.rsplit('\n', 1)[1] # Tabs and spaces
+        # Tabs and spaces after the last newline. A newline token without a newline
+        # (e.g. a comment at the end of the input) doesn't change the indentation.
+        indent_str = token.rsplit('\n', 1)[1] if '\n' in token else ''
         indent = indent_str.count(' ') + indent_str.count('\t') * self.tab_len
 
         if indent > self.indent_level[-1]:
